@@ -1,0 +1,10 @@
+//go:build verif && ((amd64 && go1.17 && !go1.27) || (arm64 && go1.20 && !go1.27))
+
+package sonic
+
+// VerifFrozeOpts exposes the encoder and decoder option words that Froze derives from a Config,
+// for the verification harness (build tag verif only).
+func VerifFrozeOpts(cfg Config) (enc uint64, dec uint64) {
+	api := cfg.Froze().(*frozenConfig)
+	return uint64(api.encoderOpts), uint64(api.decoderOpts)
+}
